@@ -10,6 +10,7 @@ import sys
 import warnings
 
 os.environ.setdefault("MPLBACKEND", "Agg")
+os.environ.setdefault("TQDM_DISABLE", "1")
 
 REPO = os.environ.get("VERIF_REPO", "/repo")
 SRC = os.path.join(REPO, "src")
